@@ -319,7 +319,7 @@ def run(ctx):
                 "bipartite graph with index maps, dataframe, hypergraph dict, HIF dict, Hypergraph/DiHypergraph/SimplicialComplex "
                 "constructors), plus hand-built networkx graphs in random vertex/edge insertion orders and (node,edge)/(edge,node) "
                 "orientations incl. invalid ones; non-trivial = distinct case whose network has an edge with >=2 members")
-    cases = load_corpus() + fixed_cases(ctx.rng) + generated(ctx.rng, ctx.n(120, 2500))
+    cases = load_corpus() + fixed_cases(ctx.rng) + generated(ctx.rng, ctx.n(120, 10000))
     dis = run_cases(ctx, cases)
     if not ctx.quick:
         ex = list(exhaustive_cases(ctx.rng, 4, 3))
@@ -329,7 +329,7 @@ def run(ctx):
                                          f"x every converter pair ({len(ex)} cases); validation of the model, not the proof")
 
     def search():
-        run_cases(ctx, generated(ctx.rng, ctx.n(400, 4000)), label="C10 targeted search", record=False)
+        run_cases(ctx, generated(ctx.rng, ctx.n(400, 8000)), label="C10 targeted search", record=False)
 
     conclude(ctx, ok, dis, search)
     ctx.assumptions = [
